@@ -6,7 +6,7 @@ re-parse of rendered text on comma / quotes, B3 getters go through getfilter.
 import ast
 
 from sa.model import AnalysisError, walk_no_nested, norm, call_name, stmt_of
-from sa.util import const_value
+from sa.util import const_value, fact_atom
 from .c12 import FactoryRoles
 from .proles import ParserRoles
 
@@ -98,6 +98,28 @@ def run(ctx):
     else:
         ctx.violation("B1", gc, "negation-not-folded:exists", "`notexists` conditions read back as `exists`", node=gc.node)
 
+    # a consumed negation is cleared before the next condition: every path from the `negate` test to the append resets the flag
+    cfgc = ctx.cfg(gc)
+    apps = [st for st in walk_no_nested(gc.node) if isinstance(st, ast.Expr) and isinstance(st.value, ast.Call) and call_name(st.value) == "append"
+            and "conditions" in norm(st.value.func.value)]
+    if not apps:
+        raise AnalysisError("B1", "get_filter_conditions: append of a read condition not found")
+
+    def neg_false(fc):
+        e, pol = fact_atom(fc)
+        return isinstance(e, ast.Name) and e.id == "negate" and pol is False
+    resets = [x for x in cfgc.stmt_nodes() if isinstance(x.ast, ast.Assign) and any(isinstance(t, ast.Name) and t.id == "negate" for t in x.ast.targets)
+              and const_value(prog, gc, x.ast.value) is False]
+    def sets_negate(m):
+        return m.kind == "stmt" and isinstance(m.ast, ast.Assign) and any(isinstance(t, ast.Name) and t.id == "negate" for t in m.ast.targets) \
+            and m not in resets
+    if all(cfgc.guarded(n, neg_false, kill_pred=sets_negate, establish=lambda m: m in resets) for st in apps for n in cfgc.nodes_for(st)):
+        ctx.holds("B1", "a pending negation is cleared on every path before the condition is recorded")
+    else:
+        ctx.violation("B1", gc, "negation-leaks", "a condition can be recorded while `negate` is still set: the negation of one condition leaks onto "
+                      "the next one", node=apps[0],
+                      witness='[("notexists","List-Id"), ("Subject",":contains","x")] reads back with the second condition negated')
+
     # ---- B2 -----------------------------------------------------------------------
     ctx.rule("B2", "read-back does not decide or split on commas in rendered text")
     n = 0
@@ -126,8 +148,16 @@ def run(ctx):
                 ctx.violation("B2", f, "comma-split", "%s recovers list items by splitting rendered text on commas: an item containing a comma is "
                               "read back as two" % f.qualname, node=x,
                               witness="envelope with key list [\"a,b\"] reads back as [\"a\", \"b\"]")
+        for x in walk_no_nested(f.node):
+            if isinstance(x, ast.Call) and isinstance(x.func, ast.Attribute) and x.func.attr in ("strip", "lstrip", "rstrip"):
+                a = const_value(prog, f, x.args[0]) if x.args else None
+                if a != '"':
+                    hit = True
+                    ctx.violation("B2", f, "strip-eats-value:%s" % norm(x)[:40], "%s removes %s from the ends of a value, not only the quotes: "
+                                  "leading/trailing characters that belong to the value are lost" % (f.qualname, "whitespace" if a is None else repr(a)),
+                                  node=x, witness='body :contains " sale " reads back as "sale"')
         if not hit:
-            ctx.holds("B2", "%s: no comma-based decision or split" % f.qualname)
+            ctx.holds("B2", "%s: no comma-based decision or split, quotes stripped only" % f.qualname)
     ctx.need("B2", "read-back functions", len(readers), 6)
 
     # ---- B3 -----------------------------------------------------------------------
@@ -142,6 +172,10 @@ def run(ctx):
             ctx.violation("B3", g, "bypasses-getfilter", "%s does not obtain the filter through getfilter: a disabled filter is read with its "
                           "`if false` wrapper" % g.qualname, node=g.node,
                           witness="conditions of a disabled filter read back as [] / the wrapper's test")
+    # "irrespective of whether the filter is currently disabled": getfilter unwraps by the flag, so flag and wrapping must stay paired
+    from .c12 import o2, o5
+    o2(ctx, R)
+    o5(ctx, R)
     gf = R.m["getfilter"]
     s = norm(gf.node)
     if "['enabled']" in s and ".children[0]" in s:
